@@ -22,6 +22,7 @@ type SecStep struct {
 	Hi   int    `json:"hi,omitempty"`
 	Kind string `json:"kind,omitempty"`
 	N    int    `json:"n,omitempty"`
+	Step int    `json:"step,omitempty"` // flip_all: stride over the bit positions (0 = every bit)
 }
 
 type SecretPlan struct {
@@ -322,7 +323,11 @@ func (e *secretExec) step(s *SecStep) {
 		if hi < 0 || hi >= len(e.stored)*8 {
 			hi = len(e.stored)*8 - 1
 		}
-		for bit := s.Lo; bit <= hi; bit++ {
+		step := s.Step
+		if step < 1 {
+			step = 1
+		}
+		for bit := s.Lo; bit <= hi; bit += step {
 			m := e.withStored(flipBit(e.stored, bit))
 			got, err := e.read(m, "k", p.Key)
 			o.Fault("stored_bitflip")
@@ -432,8 +437,9 @@ func genSecret(r *Rand, g GenCfg) Plan {
 	p.Key = r.Bytes(32)
 	p.Key[r.Intn(32)] |= 1
 	n := Pick(r, []int{0, 1, 2, 15, 16, 17, 31, 32, 33, 100, 1000})
-	if g.Tier == "thorough" && r.Chance(0.05) {
-		n = 65536
+	if r.Chance(0.06) {
+		// long values: several internal blocks / chunks of whatever size
+		n = Pick(r, []int{4097, 16385, 40000, 70000})
 	}
 	if r.Chance(0.3) {
 		n = r.Range(0, 300)
@@ -452,7 +458,9 @@ func genSecret(r *Rand, g GenCfg) Plan {
 		p.Steps = append(p.Steps, SecStep{Op: "flip_all", Hi: -1}, SecStep{Op: "trunc_all", Hi: -1})
 	} else {
 		lo := r.Intn(n * 8)
-		p.Steps = append(p.Steps, SecStep{Op: "flip_all", Lo: lo, Hi: lo + 2000}, SecStep{Op: "flip_all", Hi: 40*8 + 64}, SecStep{Op: "trunc_all", Hi: 200})
+		// every region of a long ciphertext is visited: ~1500 flips spread evenly (odd stride), plus dense ranges
+		p.Steps = append(p.Steps, SecStep{Op: "flip_all", Hi: -1, Step: (n*8/1500)|1}, SecStep{Op: "flip_all", Lo: lo, Hi: lo + 300}, SecStep{Op: "flip_all", Hi: 40*8 + 64},
+			SecStep{Op: "flip_all", Lo: (n+40)*8 - 300, Hi: -1}, SecStep{Op: "trunc_all", Hi: 100})
 	}
 	p.Steps = append(p.Steps, SecStep{Op: "extend"})
 	for i := 0; i < 4; i++ {
